@@ -1,4 +1,5 @@
 import PbProofs.Concat
+import PbModel.Gen.Concat
 
 /-! # C10 — concatenate is the exact inverse of splitting and refuses non-contiguous pieces
 
@@ -213,5 +214,41 @@ theorem C10_axis_spellings (ndim : Nat) (radio : Bool) (a : Int) (h0 : 0 ≤ a) 
 -- non-vacuity: 10 samples at 2 Hz cut into 3 + 0 + 7, middle piece without start time
 example : (concat (1/1000) .time (timePieces 0 ⟨some 5, 2, 10⟩ none 0 [(3, true), (0, false), (7, true)])).toOption.map
     (fun r => (r.led.t0, r.led.len)) = some (some 5, 10) := by decide +kernel
+
+set_option linter.unusedTactic false in
+set_option linter.unreachableTactic false in
+set_option linter.unnecessarySeqFocus false in
+/-- Tie to the source: the arithmetic of `concatenate`, translated symbolically on every run (`Gen/Concat.lean`), is
+the model's: the reference start taken from the first stamped piece and the start expected of every later stamped
+piece (one step of `timeLoop` each), the new centre `(f0 + f1)/2` with alignment `'center'`, the label
+difference tested for frequency contiguity, and the absolute label tolerance `1e-5·chan_bw` (no relative part)
+along other axes. -/
+theorem C10_source_formulas :
+    (∀ (α sr : Rat) (p : Piece) (rest : List Piece) (n : Nat) (t : Rat), p.led.t0 = some t →
+      timeLoop α sr (p :: rest) n none
+        = timeLoop α sr rest (n + p.led.len) (some (Gen.Concat.refStart t n sr))) ∧
+    (∀ (α sr : Rat) (p : Piece) (rest : List Piece) (n : Nat) (t r : Rat), p.led.t0 = some t →
+      timeLoop α sr (p :: rest) n (some r)
+        = if isclose α (Gen.Concat.expectedStart r n sr) t = true
+          then timeLoop α sr rest (n + p.led.len) (some r) else .error .valueError) ∧
+    (∀ f0 f1 : Rat, Gen.Concat.centre f0 f1 = (f0 + f1) / 2) ∧
+    (∀ y0 xl : Rat, Gen.Concat.chanDiff y0 xl = y0 - xl) ∧
+    (∀ bw : Rat, Gen.Concat.labelAtol bw = (1 / 100000) * bw) ∧
+    Gen.Concat.labelRtol = some 0 ∧ Gen.Concat.resultAlign = "center" ∧ Gen.Concat.countsSamples = true := by
+  refine ⟨?_, ?_, ?_, ?_, ?_, by decide, by decide, by decide⟩
+  · intro α sr p rest n t h
+    have e : Gen.Concat.refStart t n sr = t - n / sr := by
+      simp only [Gen.Concat.refStart] <;> first | rfl | ring1
+    rw [timeLoop, h, e]
+  · intro α sr p rest n t r h
+    have e : Gen.Concat.expectedStart r n sr = r + n / sr := by
+      simp only [Gen.Concat.expectedStart] <;> first | rfl | ring1
+    rw [timeLoop, h, e]
+  · intro f0 f1
+    simp only [Gen.Concat.centre] <;> first | rfl | ring1
+  · intro y0 xl
+    simp only [Gen.Concat.chanDiff] <;> first | rfl | ring1
+  · intro bw
+    simp only [Gen.Concat.labelAtol] <;> first | rfl | ring1
 
 end Pb.C10
